@@ -178,8 +178,23 @@ def run(idx, rep, tier):
         off, dg = (root(tri[0].args[0]), root(tri[0].args[1])) if tri else (None, None)
         dense = [c for c in df.calls(lanczos.node) if (nospace(c.func) == "Dense" or nospace(c.func).endswith("vmap(Dense)")) and c.args]
         qn = next((n for c in dense for n in df.names_in(c.args[0]) if n in trims), None)
+        # a trimmed array may reach the constructor through plain copies (`diag = trimmed_diag`)
+        copies = {st.targets[0].id: st.value.id for st in df.body_nodes(lanczos.node)
+                  if isinstance(st, ast.Assign) and len(st.targets) == 1 and isinstance(st.targets[0], ast.Name) and isinstance(st.value, ast.Name)}
+
+        def trim_of(n_):
+            seen_ = set()
+            while n_ is not None and n_ not in trims and n_ in copies and n_ not in seen_:
+                seen_.add(n_)
+                n_ = copies[n_]
+            return trims.get(n_)
+        if qn is None:
+            qn = next((n for c in dense for n in df.names_in(c.args[0]) if trim_of(n) is not None), None)
+        trims = {**trims, **{n_: trim_of(n_) for n_ in (dg, off, qn) if n_ is not None and trim_of(n_) is not None}}
         size = trims.get(dg)
         ok = size is not None and size.isidentifier() and trims.get(off) == f"{size}-1" and trims.get(qn) == size
+        if not ok and (trims.get(dg) is None or trims.get(off) is None or trims.get(qn) is None):
+            ok = None  # one of the three cuts was not found: nothing to compare
         rep.decide(ok, "trimming", "lanczos:trim", f"diagonal `{dg}` cut to {trims.get(dg)}, off-diagonal `{off}` to {trims.get(off)}, basis `{qn}` to {trims.get(qn)} columns" +
                    ("" if ok else "; required N, N-1, N for one size N"), detail="" if ok else "sizes", locs=[idx.loc(lanczos.module, lanczos.node)])
     else:
